@@ -8,7 +8,7 @@ import random
 import time
 import traceback
 
-from harness import engine, progs, provider
+from harness import engine, findings, progs, provider
 
 TRUSTED_BASE_COMMON = [
     "Coq 8.16.1 kernel via coqc (full .vo build, no -vos/-vok); vm_compute is used in table facts and "
@@ -58,7 +58,8 @@ def _case(args):
         definition, inputs = _CFG["gen"](rng, fam)
         out["definition"], out["inputs"] = definition, inputs
         sess = PSession(definition, inputs, project, with_model=with_model)
-        oracle = progs.Oracle(seed, fam)
+        sess.case_seed, sess.fam = seed, fam
+        oracle = progs.Oracle(seed, fam, per_task=bool(fam.get("per_task")))
         try:
             _CFG["history"](sess, rng, fam, oracle)
         except provider.Divergence as d:
@@ -67,7 +68,16 @@ def _case(args):
         out["calls"] = len(sess.trace)
         out["final"] = sess.status()
         if monitor and "divergence" not in out:
-            out["violations"] = monitor(sess) or []
+            vs = monitor(sess) or []
+            # attribute a violation to a known finding only if that finding lists this property and
+            # its trigger predicate fires at or before the failing step
+            for v in vs:
+                for fid in _CFG.get("known_ids", []):
+                    trig = findings.TRIGGERS.get(fid)
+                    if trig and trig(sess, v.get("step")):
+                        v["known"] = fid
+                        break
+            out["violations"] = vs
         else:
             out["violations"] = []
         out["features"] = features(sess) if features else {}
@@ -99,12 +109,14 @@ def conductor_run(ctx, prop, fam, project, monitor, features, nontrivial, n_quic
     """Generic body of run(ctx) for a conductor property."""
     tier, seed = ctx["tier"], ctx["seed"]
     n = n_quick if tier == "quick" else n_thorough
+    known = [k for k in ctx["known"].get("findings", []) if prop in k.get("properties", [])]
     cfg = {"fam": fam, "project": project, "monitor": monitor, "features": features,
-           "gen": gen or progs.gen_definition, "history": history or progs.run_history}
+           "gen": gen or progs.gen_definition, "history": history or progs.run_history,
+           "known_ids": [k["id"] for k in known]}
     base = (seed * 1000003) % (2 ** 31)
     seeds = [base + i for i in range(n)]
     results = run_cases(seeds, ctx["model_ok"], cfg)
-    out = {"evaluations": len(results), "violations": [], "known_lines": []}
+    out = {"evaluations": len(results), "violations": [], "known_lines": findings.reconfirm(ctx["known"], prop)}
     divs = [r for r in results if "divergence" in r]
     errs = [r for r in results if "error" in r]
     calls = sum(r.get("calls", 0) for r in results)
@@ -128,18 +140,12 @@ def conductor_run(ctx, prop, fam, project, monitor, features, nontrivial, n_quic
     out["samples"] = [{"seed": r["seed"], "definition": r.get("definition"), "inputs": r.get("inputs"),
                        "ops": r.get("ops", [])[:40], "final": r.get("final")}
                       for r in results[:3]]
-    known = [k for k in ctx["known"].get("findings", []) if prop in k.get("properties", [])]
     for r in results:
         for v in r.get("violations", []):
             v = dict(v)
-            v.update({"property": prop, "seed": r["seed"], "definition": r["definition"],
-                      "inputs": r["inputs"], "ops": r["ops"][: v.get("upto", v.get("step", len(r["ops"]) - 1)) + 1]})
-            k = classify_known(v, known) if classify_known else None
-            if k:
-                line = "%s %s" % (k["id"], k["what"])
-                if line not in out["known_lines"]:
-                    out["known_lines"].append(line)
-                v["known"] = k["id"]
+            v.update({"property": prop, "seed": r["seed"], "definition": r["definition"], "inputs": r["inputs"]})
+            if "ops" not in v:
+                v["ops"] = r["ops"][: v.get("step", len(r["ops"]) - 1) + 1]
             out["violations"].append(v)
     if errs:
         out["violations"].append({"property": prop, "what": "harness error while running a case",
@@ -163,12 +169,10 @@ def conductor_run(ctx, prop, fam, project, monitor, features, nontrivial, n_quic
             for v in r.get("violations", []):
                 v = dict(v)
                 v.update({"property": prop, "seed": r["seed"], "definition": r["definition"],
-                          "inputs": r["inputs"], "found_by": "search",
-                          "ops": r["ops"][: v.get("upto", v.get("step", len(r["ops"]) - 1)) + 1]})
-                k = classify_known(v, known) if classify_known else None
-                if k:
-                    v["known"] = k["id"]
-                else:
+                          "inputs": r["inputs"], "found_by": "search"})
+                if "ops" not in v:
+                    v["ops"] = r["ops"][: v.get("step", len(r["ops"]) - 1) + 1]
+                if not v.get("known"):
                     found += 1
                 out["violations"].append(v)
         out["search"] = {"cases": len(sres), "budget_s": budget, "found": found}
